@@ -38,6 +38,10 @@ TDeclassify == /\ l <= Len(TraceEvents) /\ Ev.e = "Declassify" /\ key # << >>
                /\ l' = l + 1 /\ UNCHANGED << table, compared >>
 TReturn == /\ l <= Len(TraceEvents) /\ Ev.e = "Return" /\ key # << >>
            /\ key' = << >> /\ l' = l + 1 /\ UNCHANGED << table, compared >>
+\* A "Tainted" event is a valgrind-memcheck report between the markers of a run whose secret arguments were marked undefined
+\* (and whose declassifications were honoured): a branch, or an address, was computed from data derived from a secret and
+\* never declassified.  The specification has NO transition that consumes such an event -- a trace containing one is not a
+\* behaviour of a constant-time library, whatever the values of the secrets were in that run.
 Next == TCall \/ TSegment \/ TDeclassify \/ TReturn
 \* the machine is deterministic: the position determines the state, so TLC fingerprints only the position (linear instead of
 \* quadratic cost in the trace length; the table is still carried and consulted)
